@@ -263,6 +263,10 @@ pub struct ExtClient {
     /// when set, `get_latest_version` may return the previous latest entry once (eventually
     /// consistent read); one-shot budget
     stale_latest: Mutex<u32>,
+    /// fail (once) the first `get` issued after an injected fault on a put of this client: the
+    /// "who owns the version?" question of the commit path cannot be answered either
+    fail_get_after_put_fault: AtomicBool,
+    put_fault_fired: AtomicBool,
 }
 
 impl ExtClient {
@@ -274,7 +278,12 @@ impl ExtClient {
             counts: Mutex::new(BTreeMap::new()),
             dead: AtomicBool::new(false),
             stale_latest: Mutex::new(0),
+            fail_get_after_put_fault: AtomicBool::new(false),
+            put_fault_fired: AtomicBool::new(false),
         })
+    }
+    pub fn set_fail_get_after_put_fault(&self, on: bool) {
+        self.fail_get_after_put_fault.store(on, Ordering::SeqCst);
     }
     pub fn set_faults(&self, f: Vec<ExtFault>) {
         *self.faults.lock().unwrap() = f;
@@ -310,9 +319,18 @@ impl ExtClient {
             *e += 1;
             *e
         };
+        if op == ExtOp::Get
+            && self.put_fault_fired.load(Ordering::SeqCst)
+            && self.fail_get_after_put_fault.swap(false, Ordering::SeqCst)
+        {
+            return Ok(Some(Fault::FailBefore));
+        }
         let mut faults = self.faults.lock().unwrap();
         if let Some(i) = faults.iter().position(|f| f.op == op && f.nth == n) {
             let f = faults.remove(i);
+            if matches!(op, ExtOp::PutIfNotExists | ExtOp::PutIfExists) {
+                self.put_fault_fired.store(true, Ordering::SeqCst);
+            }
             if f.crash {
                 self.dead.store(true, Ordering::SeqCst);
                 // kill the object-store side of the process too: its next mutating call (and
